@@ -120,7 +120,7 @@ def assume_axioms(ex, fr):
 
 def run_path(fi, con, prefix):
     dec = Decider(prefix)
-    ex = Ex(dec, fi.qual)
+    ex = Ex(dec, con.qual)
     ob_extra = []
     status = "ok"
     try:
@@ -179,7 +179,7 @@ def run_path(fi, con, prefix):
 def verify_function(qual):
     t0 = time.time()
     out = FnResult(qual)
-    fi = src.FUNCS.get(qual)
+    fi = src.FUNCS.get(qual.split("#")[0])
     con = spec.CONTRACTS.get(qual)
     if fi is None:
         out.error = f"function {qual} not found in the current source"
